@@ -111,6 +111,7 @@ func (*Engine) Decode(raw json.RawMessage) (core.Trace, error) {
 }
 
 const winB = 0x30000 // never part of the image
+const winC = 0x7f0100000040 // never part of the image either, above 2^32
 
 const sigNarrow = "narrow-register-fill"
 
@@ -126,6 +127,10 @@ func (e *Engine) Generate(r *core.Rand, prop string, tier string) core.Trace {
 		WImm: r.Range(1, 8), WReg: r.Range(1, 8), WShift: r.Range(1, 5), WW: r.Range(1, 6), WMul: r.Range(1, 6), WUpper: r.Range(1, 2)}
 	if r.Chance(1, 4) {
 		o.MemPct = r.Range(50, 90)
+	}
+	if r.Chance(1, 4) {
+		amos := rvref.Names("AMO")
+		o.FavAMO = amos[r.Intn(len(amos))]
 	}
 	t.Prog = rvref.RandomProgram(r, base, n, o)
 	t.Entry = t.Prog[0].Addr
@@ -148,6 +153,9 @@ func (e *Engine) Generate(r *core.Rand, prop string, tier string) core.Trace {
 	win := func() uint64 {
 		switch r.Intn(6) {
 		case 0:
+			if r.Chance(1, 3) {
+				return winC + uint64(r.Intn(24)) // pointers with non-zero upper bytes
+			}
 			return winB + uint64(r.Intn(24))
 		case 1:
 			return t.DataAddr + uint64(dl+t.Bss+r.Intn(t.Gap2+1)) - uint64(r.Intn(9)) // around the end of the image / the hole
